@@ -2,4 +2,1071 @@ import ScryerModel.Model.OpTable
 /-! Helper lemmas for the operator table model (C43). -/
 namespace Scryer.OpTable
 
+/-! ### the association list -/
+
+theorem hasKey_iff (e : Entry) (n : String) (c : Cls) :
+    e.hasKey n c = true ↔ e.name = n ∧ e.spec.cls = c := by
+  simp [Entry.hasKey]
+
+theorem get_cons (e : Entry) (r : Table) (n : String) (c : Cls) :
+    get (e :: r) n c = if e.name = n ∧ e.spec.cls = c then some e else get r n c := by
+  simp only [get, List.find?_cons]
+  by_cases h : e.name = n ∧ e.spec.cls = c
+  · rw [(hasKey_iff e n c).2 h, if_pos h]
+  · have : e.hasKey n c = false := by
+      cases hk : e.hasKey n c
+      · rfl
+      · exact absurd ((hasKey_iff e n c).1 hk) h
+    rw [this, if_neg h]
+
+theorem set_cons (e : Entry) (r : Table) (n : String) (p : Nat) (s : Spec) :
+    set (e :: r) n p s =
+      if e.name = n ∧ e.spec.cls = s.cls then ⟨n, p, s⟩ :: r else e :: set r n p s := by
+  simp only [set]
+  by_cases h : e.name = n ∧ e.spec.cls = s.cls
+  · rw [(hasKey_iff e n s.cls).2 h, if_pos h]; rfl
+  · have : e.hasKey n s.cls = false := by
+      cases hk : e.hasKey n s.cls
+      · rfl
+      · exact absurd ((hasKey_iff e n s.cls).1 hk) h
+    rw [this, if_neg h]; rfl
+
+@[simp] theorem get_nil (n : String) (c : Cls) : get [] n c = none := rfl
+
+theorem get_some_key {t : Table} {n c e} (h : get t n c = some e) :
+    e.name = n ∧ e.spec.cls = c := by
+  have := List.find?_some h
+  exact (hasKey_iff e n c).1 this
+
+theorem get_some_mem {t : Table} {n c e} (h : get t n c = some e) : e ∈ t :=
+  List.mem_of_find?_eq_some h
+
+/-- `insert_into_op_dir` followed by a lookup. -/
+theorem get_set (t : Table) (n : String) (p : Nat) (s : Spec) (m : String) (c : Cls) :
+    get (set t n p s) m c = if m = n ∧ c = s.cls then some ⟨n, p, s⟩ else get t m c := by
+  induction t with
+  | nil =>
+    simp only [set, get_cons, get_nil]
+    by_cases h : m = n ∧ c = s.cls
+    · obtain ⟨rfl, rfl⟩ := h; simp
+    · rw [if_neg h, if_neg]; intro h'; exact h ⟨h'.1.symm, h'.2.symm⟩
+  | cons e r ih =>
+    rw [set_cons]
+    by_cases hk : e.name = n ∧ e.spec.cls = s.cls
+    · rw [if_pos hk, get_cons, get_cons]
+      by_cases h : m = n ∧ c = s.cls
+      · obtain ⟨rfl, rfl⟩ := h; simp
+      · rw [if_neg h, if_neg (fun h' => h ⟨h'.1.symm, h'.2.symm⟩), if_neg]
+        intro h'; exact h ⟨h'.1.symm.trans hk.1, h'.2.symm.trans hk.2⟩
+    · rw [if_neg hk, get_cons, ih, get_cons]
+      by_cases h : m = n ∧ c = s.cls
+      · obtain ⟨rfl, rfl⟩ := h; simp [hk]
+      · simp [h]
+
+theorem lookup_def (t : Table) (n : String) (c : Cls) :
+    lookup t n c = (get t n c).bind fun e => if e.prio = 0 then none else some (e.prio, e.spec) := by
+  unfold lookup; cases get t n c <;> rfl
+
+theorem prio_def (t : Table) (n : String) (c : Cls) :
+    prio t n c = ((get t n c).map (·.prio)).getD 0 := by
+  unfold prio; cases get t n c <;> rfl
+
+/-- the visible table after `insert_into_op_dir`. -/
+theorem lookup_set (t : Table) (n : String) (p : Nat) (s : Spec) (m : String) (c : Cls) :
+    lookup (set t n p s) m c =
+      if m = n ∧ c = s.cls then (if p = 0 then none else some (p, s)) else lookup t m c := by
+  rw [lookup_def, get_set]
+  by_cases h : m = n ∧ c = s.cls
+  · simp [h]
+  · simp only [h, if_false]; rw [← lookup_def]
+
+theorem prio_set (t : Table) (n : String) (p : Nat) (s : Spec) (m : String) (c : Cls) :
+    prio (set t n p s) m c = if m = n ∧ c = s.cls then p else prio t m c := by
+  rw [prio_def, get_set]
+  by_cases h : m = n ∧ c = s.cls
+  · simp [h]
+  · simp only [h, if_false]; rw [← prio_def]
+
+theorem lookup_none_iff (t : Table) (n : String) (c : Cls) :
+    lookup t n c = none ↔ prio t n c = 0 := by
+  unfold lookup prio
+  cases get t n c with
+  | none => simp
+  | some e => by_cases h : e.prio = 0 <;> simp [h]
+
+theorem lookup_some_prio {t : Table} {n c p s} (h : lookup t n c = some (p, s)) :
+    prio t n c = p ∧ p ≠ 0 := by
+  unfold lookup at h; unfold prio
+  cases hg : get t n c with
+  | none => simp [hg] at h
+  | some e =>
+    simp only [hg] at h ⊢
+    by_cases h0 : e.prio = 0
+    · simp [h0] at h
+    · simp only [h0, if_false, Option.some.injEq, Prod.mk.injEq] at h
+      exact ⟨h.1, h.1 ▸ h0⟩
+
+/-! ### unique keys, `current_op/3` -/
+
+theorem wf_set {t : Table} (h : wf t) (n : String) (p : Nat) (s : Spec) : wf (set t n p s) := by
+  induction t with
+  | nil => exact ⟨rfl, trivial⟩
+  | cons e r ih =>
+    rw [set_cons]
+    by_cases hk : e.name = n ∧ e.spec.cls = s.cls
+    · rw [if_pos hk]
+      refine ⟨?_, h.2⟩
+      have := h.1
+      rw [hk.1, hk.2] at this
+      exact this
+    · rw [if_neg hk]
+      refine ⟨?_, ih h.2⟩
+      rw [get_set, if_neg hk]
+      exact h.1
+
+theorem wf_get_of_mem {t : Table} (h : wf t) {e : Entry} (he : e ∈ t) :
+    get t e.name e.spec.cls = some e := by
+  induction t with
+  | nil => cases he
+  | cons x r ih =>
+    rw [get_cons]
+    rcases List.mem_cons.1 he with rfl | hr
+    · simp
+    · have := ih h.2 hr
+      by_cases hk : x.name = e.name ∧ x.spec.cls = e.spec.cls
+      · have h1 := h.1
+        rw [hk.1, hk.2, this] at h1
+        cases h1
+      · rw [if_neg hk]; exact this
+
+theorem visible_some {e : Entry} {x : Nat × Spec × String} :
+    visible e = some x ↔ e.prio ≠ 0 ∧ x = (e.prio, e.spec, e.name) := by
+  unfold visible
+  by_cases h : e.prio = 0
+  · simp [h]
+  · simp [h, eq_comm]
+
+theorem mem_currentOp {t : Table} {x : Nat × Spec × String} :
+    x ∈ currentOp t ↔ ∃ e ∈ t, visible e = some x := by
+  simp only [currentOp, List.mem_filterMap]
+
+/-- with unique keys, `current_op/3` enumerates exactly the visible table. -/
+theorem mem_currentOp_iff_lookup {t : Table} (h : wf t) (p : Nat) (s : Spec) (n : String) :
+    (p, s, n) ∈ currentOp t ↔ lookup t n s.cls = some (p, s) := by
+  rw [mem_currentOp]
+  constructor
+  · rintro ⟨e, he, hv⟩
+    obtain ⟨h0, hx⟩ := visible_some.1 hv
+    simp only [Prod.mk.injEq] at hx
+    obtain ⟨rfl, rfl, rfl⟩ := hx
+    rw [lookup_def, wf_get_of_mem h he]
+    simp [h0]
+  · intro hl
+    rw [lookup_def] at hl
+    cases hg : get t n s.cls with
+    | none => simp [hg] at hl
+    | some e =>
+      simp only [hg, Option.bind_some] at hl
+      have hk := get_some_key hg
+      by_cases h0 : e.prio = 0
+      · simp [h0] at hl
+      · simp only [h0, if_false, Option.some.injEq, Prod.mk.injEq] at hl
+        refine ⟨e, get_some_mem hg, visible_some.2 ⟨h0, ?_⟩⟩
+        rw [hl.1, hl.2, hk.1]
+
+/-! ### the update of an accepted call -/
+
+theorem setAll_cons (t : Table) (p : Nat) (s : Spec) (n : String) (ns : List String) :
+    setAll t p s (n :: ns) = setAll (set t n p s) p s ns := rfl
+
+@[simp] theorem setAll_nil (t : Table) (p : Nat) (s : Spec) : setAll t p s [] = t := rfl
+
+theorem wf_setAll {t : Table} (h : wf t) (p : Nat) (s : Spec) (ns : List String) :
+    wf (setAll t p s ns) := by
+  induction ns generalizing t with
+  | nil => exact h
+  | cons n r ih => rw [setAll_cons]; exact ih (wf_set h n p s)
+
+theorem lookup_setAll (t : Table) (p : Nat) (s : Spec) (ns : List String) (m : String) (c : Cls) :
+    lookup (setAll t p s ns) m c =
+      if m ∈ ns ∧ c = s.cls then (if p = 0 then none else some (p, s)) else lookup t m c := by
+  induction ns generalizing t with
+  | nil => simp
+  | cons n r ih =>
+    rw [setAll_cons, ih, lookup_set]
+    by_cases h1 : m ∈ r ∧ c = s.cls
+    · have : m ∈ n :: r ∧ c = s.cls := ⟨List.mem_cons_of_mem _ h1.1, h1.2⟩
+      rw [if_pos h1, if_pos this]
+    · rw [if_neg h1]
+      by_cases h2 : m = n ∧ c = s.cls
+      · have : m ∈ n :: r ∧ c = s.cls := ⟨h2.1 ▸ List.mem_cons_self, h2.2⟩
+        rw [if_pos h2, if_pos this]
+      · have : ¬(m ∈ n :: r ∧ c = s.cls) := by
+          rintro ⟨hm, hc⟩
+          rcases List.mem_cons.1 hm with rfl | hm
+          · exact h2 ⟨rfl, hc⟩
+          · exact h1 ⟨hm, hc⟩
+        rw [if_neg h2, if_neg this]
+
+theorem prio_setAll_other (t : Table) (p : Nat) (s : Spec) (ns : List String) (m : String) (c : Cls)
+    (hc : c ≠ s.cls) : prio (setAll t p s ns) m c = prio t m c := by
+  induction ns generalizing t with
+  | nil => rfl
+  | cons n r ih => rw [setAll_cons, ih, prio_set, if_neg (fun h => hc h.2)]
+
+/-! ### argument checks -/
+
+theorem checkPriority_ok {a : Arg} {p : Nat} (h : checkPriority a = .ok p) :
+    ∃ i : Int, a = .int i ∧ 0 ≤ i ∧ i ≤ 1200 ∧ p = i.toNat := by
+  cases a with
+  | int i =>
+    simp only [checkPriority] at h
+    by_cases hi : i < 0 ∨ 1200 < i
+    · simp [hi] at h
+    · simp only [hi, if_false, Except.ok.injEq] at h
+      exact ⟨i, rfl, by omega, by omega, h.symm⟩
+  | var => simp [checkPriority] at h
+  | atom x => simp [checkPriority] at h
+  | other x => simp [checkPriority] at h
+
+theorem checkPriority_le {a : Arg} {p : Nat} (h : checkPriority a = .ok p) : p ≤ 1200 := by
+  obtain ⟨i, -, h0, h1, rfl⟩ := checkPriority_ok h
+  omega
+
+theorem checkPriority_error {a : Arg} {e : Err} (h : checkPriority a = .error e) :
+    (∃ i : Int, a = .int i ∧ (i < 0 ∨ 1200 < i) ∧ e = .domPriority i) ∨
+    ((∀ i, a ≠ .int i) ∧ e = .typeInteger a) := by
+  cases a with
+  | int i =>
+    simp only [checkPriority] at h
+    by_cases hi : i < 0 ∨ 1200 < i
+    · simp only [hi, if_true, Except.error.injEq] at h
+      exact .inl ⟨i, rfl, hi, h.symm⟩
+    · simp [hi] at h
+  | var => right; simp only [checkPriority, Except.error.injEq] at h; exact ⟨by simp, h.symm⟩
+  | atom x => right; simp only [checkPriority, Except.error.injEq] at h; exact ⟨by simp, h.symm⟩
+  | other x => right; simp only [checkPriority, Except.error.injEq] at h; exact ⟨by simp, h.symm⟩
+
+theorem checkSpec_ok {a : Arg} {s : Spec} (h : checkSpec a = .ok s) :
+    ∃ x, a = .atom x ∧ Spec.ofAtom? x = some s := by
+  cases a with
+  | atom x =>
+    simp only [checkSpec] at h
+    cases hx : Spec.ofAtom? x with
+    | none => simp [hx] at h
+    | some s' => simp only [hx, Except.ok.injEq] at h; exact ⟨x, rfl, by rw [hx, h]⟩
+  | var => simp [checkSpec] at h
+  | int i => simp [checkSpec] at h
+  | other x => simp [checkSpec] at h
+
+theorem checkSpec_error {a : Arg} {e : Err} (h : checkSpec a = .error e) :
+    (∃ x, a = .atom x ∧ Spec.ofAtom? x = none ∧ e = .domSpecifier x) ∨
+    ((∀ x, a ≠ .atom x) ∧ e = .typeAtom a) := by
+  cases a with
+  | atom x =>
+    simp only [checkSpec] at h
+    cases hx : Spec.ofAtom? x with
+    | none => simp only [hx, Except.error.injEq] at h; exact .inl ⟨x, rfl, hx, h.symm⟩
+    | some s' => simp [hx] at h
+  | var => right; simp only [checkSpec, Except.error.injEq] at h; exact ⟨by simp, h.symm⟩
+  | int i => right; simp only [checkSpec, Except.error.injEq] at h; exact ⟨by simp, h.symm⟩
+  | other x => right; simp only [checkSpec, Except.error.injEq] at h; exact ⟨by simp, h.symm⟩
+
+theorem validOp_none {a : String} : validOp a = none ↔ a ≠ "," ∧ a ≠ "{}" ∧ a ≠ "[]" := by
+  unfold validOp
+  by_cases h1 : a = ","
+  · simp [h1]
+  · by_cases h2 : a = "{}"
+    · simp [h2]
+    · by_cases h3 : a = "[]"
+      · simp [h3]
+      · simp [h1, h2, h3]
+
+theorem validOp_some {a : String} {e : Err} (h : validOp a = some e) :
+    (a = "," ∧ e = .permModify ",") ∨ (a = "{}" ∧ e = .permCreate "{}") ∨
+    (a = "[]" ∧ e = .permCreate "[]") := by
+  unfold validOp at h
+  split at h
+  · next h1 => exact .inl ⟨h1, (Option.some.inj h).symm⟩
+  · split at h
+    · next h2 => exact .inr (.inl ⟨h2, (Option.some.inj h).symm⟩)
+    · split at h
+      · next h3 => exact .inr (.inr ⟨h3, (Option.some.inj h).symm⟩)
+      · cases h
+
+theorem listCheck_some {es : List Arg} {tl : Arg} {ns : List String}
+    (h : listCheck es tl = .ok (some ns)) :
+    tl = .atom "[]" ∧ es = ns.map .atom ∧ ∀ n ∈ ns, validOp n = none := by
+  induction es generalizing ns with
+  | nil =>
+    cases tl with
+    | atom a =>
+      simp only [listCheck] at h
+      by_cases ha : a = "[]"
+      · simp only [ha, if_true, Except.ok.injEq, Option.some.injEq] at h
+        subst h; subst ha; simp
+      · simp [ha] at h
+    | var => simp [listCheck] at h
+    | int i => simp [listCheck] at h
+    | other x => simp [listCheck] at h
+  | cons x r ih =>
+    cases x with
+    | atom a =>
+      simp only [listCheck] at h
+      cases hv : validOp a with
+      | some e => simp [hv] at h
+      | none =>
+        simp only [hv] at h
+        cases hr : listCheck r tl with
+        | error e => simp [hr] at h
+        | ok o =>
+          cases o with
+          | none => simp [hr] at h
+          | some ns' =>
+            simp only [hr, Except.ok.injEq, Option.some.injEq] at h
+            obtain ⟨h1, h2, h3⟩ := ih hr
+            subst h
+            refine ⟨h1, by simp [h2], ?_⟩
+            intro n hn
+            rcases List.mem_cons.1 hn with rfl | hn
+            · exact hv
+            · exact h3 n hn
+    | var => simp [listCheck] at h
+    | int i => simp [listCheck] at h
+    | other y => simp [listCheck] at h
+
+theorem listCheck_none {es : List Arg} {tl : Arg} (h : listCheck es tl = .ok none) :
+    tl ≠ .var ∧ tl ≠ .atom "[]" := by
+  induction es with
+  | nil =>
+    cases tl with
+    | atom a =>
+      simp only [listCheck] at h
+      by_cases ha : a = "[]"
+      · simp [ha] at h
+      · exact ⟨by simp, by simpa using ha⟩
+    | var => simp [listCheck] at h
+    | int i => exact ⟨by simp, by simp⟩
+    | other x => exact ⟨by simp, by simp⟩
+  | cons x r ih =>
+    cases x with
+    | atom a =>
+      simp only [listCheck] at h
+      cases hv : validOp a with
+      | some e => simp [hv] at h
+      | none =>
+        simp only [hv] at h
+        cases hr : listCheck r tl with
+        | error e => simp [hr] at h
+        | ok o =>
+          cases o with
+          | none => exact ih hr
+          | some ns' => simp [hr] at h
+    | var => simp [listCheck] at h
+    | int i => simp [listCheck] at h
+    | other y => simp [listCheck] at h
+
+theorem listCheck_error {es : List Arg} {tl : Arg} {e : Err} (h : listCheck es tl = .error e) :
+    (e = .inst ∧ (Arg.var ∈ es ∨ tl = .var)) ∨
+    (∃ x ∈ es, x ≠ .var ∧ (∀ a, x ≠ .atom a) ∧ e = .typeAtom x) ∨
+    (∃ a, Arg.atom a ∈ es ∧ validOp a = some e) := by
+  induction es with
+  | nil =>
+    cases tl with
+    | atom a =>
+      simp only [listCheck] at h
+      by_cases ha : a = "[]" <;> simp [ha] at h
+    | var => simp only [listCheck, Except.error.injEq] at h; exact .inl ⟨h.symm, .inr rfl⟩
+    | int i => simp [listCheck] at h
+    | other x => simp [listCheck] at h
+  | cons x r ih =>
+    cases x with
+    | atom a =>
+      simp only [listCheck] at h
+      cases hv : validOp a with
+      | some e' =>
+        simp only [hv, Except.error.injEq] at h
+        exact .inr (.inr ⟨a, List.mem_cons_self, h ▸ hv⟩)
+      | none =>
+        simp only [hv] at h
+        cases hr : listCheck r tl with
+        | error e' =>
+          simp only [hr, Except.error.injEq] at h
+          subst h
+          rcases ih hr with ⟨h1, h2⟩ | ⟨y, hy, h2⟩ | ⟨b, hb, h2⟩
+          · exact .inl ⟨h1, h2.imp (List.mem_cons_of_mem _) id⟩
+          · exact .inr (.inl ⟨y, List.mem_cons_of_mem _ hy, h2⟩)
+          · exact .inr (.inr ⟨b, List.mem_cons_of_mem _ hb, h2⟩)
+        | ok o =>
+          cases o with
+          | none => simp [hr] at h
+          | some ns' => simp [hr] at h
+    | var =>
+      simp only [listCheck, Except.error.injEq] at h
+      exact .inl ⟨h.symm, .inl List.mem_cons_self⟩
+    | int i =>
+      simp only [listCheck, Except.error.injEq] at h
+      exact .inr (.inl ⟨.int i, List.mem_cons_self, by simp, by simp, h.symm⟩)
+    | other y =>
+      simp only [listCheck, Except.error.injEq] at h
+      exact .inr (.inl ⟨.other y, List.mem_cons_self, by simp, by simp, h.symm⟩)
+
+/-! ### `'$op'/3` and the list traversal -/
+
+theorem declare_ok {t : Table} {p : Nat} {s : Spec} {n : String} {t' : Table}
+    (h : declare t p s n = .ok t') : t' = set t n p s ∧ (p ≠ 0 → conflict t s n = false) := by
+  unfold declare at h
+  by_cases h0 : p = 0
+  · simp only [h0, if_true, Except.ok.injEq] at h
+    exact ⟨by rw [h0, h], fun hp => absurd h0 hp⟩
+  · simp only [h0, if_false] at h
+    cases hc : conflict t s n with
+    | true => simp [hc] at h
+    | false =>
+      simp only [hc, Bool.false_eq_true, if_false, Except.ok.injEq] at h
+      exact ⟨h.symm, fun _ => rfl⟩
+
+theorem declare_error {t : Table} {p : Nat} {s : Spec} {n : String} {e : Err}
+    (h : declare t p s n = .error e) : p ≠ 0 ∧ conflict t s n = true ∧ e = .permCreate n := by
+  unfold declare at h
+  by_cases h0 : p = 0
+  · simp [h0] at h
+  · simp only [h0, if_false] at h
+    cases hc : conflict t s n with
+    | true =>
+      simp only [hc, if_true, Except.error.injEq] at h
+      exact ⟨h0, rfl, h.symm⟩
+    | false => simp [hc] at h
+
+theorem declare_of_noClash {t : Table} {p : Nat} {s : Spec} {n : String}
+    (h : p ≠ 0 → conflict t s n = false) : declare t p s n = .ok (set t n p s) := by
+  unfold declare
+  by_cases h0 : p = 0
+  · simp [h0]
+  · simp [h0, h h0]
+
+/-- an update in class `s.cls` does not change the outcome of the infix/postfix test for `s`. -/
+theorem conflict_set (t : Table) (n : String) (p : Nat) (s : Spec) (m : String) :
+    conflict (set t n p s) s m = conflict t s m := by
+  unfold conflict
+  rw [prio_set, prio_set]
+  cases s <;> simp [Spec.cls]
+
+theorem applyList_ok (t : Table) (p : Nat) (s : Spec) (ns : List String)
+    (h : p ≠ 0 → ∀ n ∈ ns, conflict t s n = false) :
+    applyList t p s ns = (setAll t p s ns, none) := by
+  induction ns generalizing t with
+  | nil => rfl
+  | cons n r ih =>
+    have hn : declare t p s n = .ok (set t n p s) :=
+      declare_of_noClash fun hp => h hp n List.mem_cons_self
+    simp only [applyList, hn, setAll_cons]
+    apply ih
+    intro hp m hm
+    rw [conflict_set]
+    exact h hp m (List.mem_cons_of_mem _ hm)
+
+theorem find_conflict_none {t : Table} {s : Spec} {ns : List String}
+    (h : ns.find? (conflict t s) = none) : ∀ n ∈ ns, conflict t s n = false := by
+  intro n hn
+  have := List.find?_eq_none.1 h n hn
+  simpa using this
+
+/-! ### case analysis of the ISO step -/
+
+/-- what a successful `op/3` call has established. -/
+structure Accepted (t : Table) (c : Call) (p : Nat) (s : Spec) (ns : List String) : Prop where
+  prio : checkPriority c.prio = .ok p
+  spec : checkSpec c.spec = .ok s
+  names : opNames c.op = some ns
+  valid : ∀ n ∈ ns, validOp n = none
+  bar : "|" ∈ ns → barOk p s = true
+  noClash : p ≠ 0 → ∀ n ∈ ns, conflict t s n = false
+
+/-- the error exits of `finish`/`finishBar`, as ISO conditions on the names being declared. -/
+inductive FinishErr (t : Table) (P S : Arg) (ns : List String) : Err → Prop
+  | prio (e) : checkPriority P = .error e → FinishErr t P S ns e
+  | spec (p e) : checkPriority P = .ok p → checkSpec S = .error e → FinishErr t P S ns e
+  | bar (p s) : checkPriority P = .ok p → checkSpec S = .ok s → "|" ∈ ns → barOk p s = false →
+      FinishErr t P S ns (.permCreate "|")
+  | clash (p s n) : checkPriority P = .ok p → checkSpec S = .ok s → p ≠ 0 → n ∈ ns →
+      conflict t s n = true → FinishErr t P S ns (.permCreate n)
+
+/-- outcome of the common tail: either an ISO error with the table untouched, or all updates. -/
+def FinishSpec (t : Table) (P S : Arg) (bar : Bool) (ns : List String) (r : Table × Option Err) :
+    Prop :=
+  (∃ e, r = (t, some e) ∧ FinishErr t P S ns e) ∨
+  (∃ p s, checkPriority P = .ok p ∧ checkSpec S = .ok s ∧ (bar = true → "|" ∈ ns → barOk p s = true) ∧
+    (p ≠ 0 → ∀ n ∈ ns, conflict t s n = false) ∧ r = (setAll t p s ns, none))
+
+theorem finish_list (t : Table) (P S : Arg) (ns : List String) :
+    FinishSpec t P S true ns (finish ⟨true, true⟩ t P S true ns) := by
+  unfold finish
+  cases hp : checkPriority P with
+  | error e => exact .inl ⟨e, rfl, .prio e hp⟩
+  | ok p =>
+    cases hs : checkSpec S with
+    | error e => exact .inl ⟨e, rfl, .spec p e hp hs⟩
+    | ok s =>
+      simp only [Bool.true_and]
+      by_cases hb : (ns.contains "|" && !barOk p s) = true
+      · rw [if_pos hb]
+        simp only [Bool.and_eq_true, List.contains_iff_mem, Bool.not_eq_true'] at hb
+        exact .inl ⟨_, rfl, .bar p s hp hs hb.1 hb.2⟩
+      · rw [if_neg hb]
+        have hb' : "|" ∈ ns → barOk p s = true := by
+          intro hm
+          cases hk : barOk p s with
+          | true => rfl
+          | false =>
+            exact absurd (by simp [hm, hk]) hb
+        by_cases h0 : p = 0
+        · have : decide (p ≠ 0) = false := by simp [h0]
+          rw [this]
+          simp only [Bool.false_eq_true, if_false]
+          have hnc : p ≠ 0 → ∀ n ∈ ns, conflict t s n = false := fun h => absurd h0 h
+          exact .inr ⟨p, s, hp, hs, fun _ => hb', hnc, applyList_ok t p s ns hnc⟩
+        · have : decide (p ≠ 0) = true := by simp [h0]
+          rw [this]
+          simp only [if_true]
+          cases hf : ns.find? (conflict t s) with
+          | some n =>
+            have h1 := List.find?_some hf
+            have h2 := List.mem_of_find?_eq_some hf
+            exact .inl ⟨_, rfl, .clash p s n hp hs h0 h2 h1⟩
+          | none =>
+            have hnc : p ≠ 0 → ∀ n ∈ ns, conflict t s n = false := fun _ => find_conflict_none hf
+            exact .inr ⟨p, s, hp, hs, fun _ => hb', hnc, applyList_ok t p s ns hnc⟩
+
+theorem finish_one (fx : Fixes) (t : Table) (P S : Arg) (a : String) :
+    FinishSpec t P S false [a] (finish fx t P S false [a]) := by
+  unfold finish
+  cases hp : checkPriority P with
+  | error e => exact .inl ⟨e, rfl, .prio e hp⟩
+  | ok p =>
+    cases hs : checkSpec S with
+    | error e => exact .inl ⟨e, rfl, .spec p e hp hs⟩
+    | ok s =>
+      simp only [Bool.and_false, Bool.false_and, Bool.false_eq_true, if_false, applyList]
+      cases hd : declare t p s a with
+      | ok t' =>
+        obtain ⟨h1, h2⟩ := declare_ok hd
+        refine .inr ⟨p, s, hp, hs, fun h => Bool.noConfusion h, ?_, ?_⟩
+        · intro h0 n hn
+          rw [List.mem_singleton.1 hn]; exact h2 h0
+        · subst h1; rfl
+      | error e =>
+        obtain ⟨h0, h1, rfl⟩ := declare_error hd
+        exact .inl ⟨_, rfl, .clash p s a hp hs h0 List.mem_cons_self h1⟩
+
+theorem finishBar_spec (t : Table) (P S : Arg) :
+    FinishSpec t P S true ["|"] (finishBar t P S) := by
+  unfold finishBar
+  cases hp : checkPriority P with
+  | error e => exact .inl ⟨e, rfl, .prio e hp⟩
+  | ok p =>
+    cases hs : checkSpec S with
+    | error e => exact .inl ⟨e, rfl, .spec p e hp hs⟩
+    | ok s =>
+      cases hb : barOk p s with
+      | false =>
+        simp only [hb, Bool.false_eq_true, if_false]
+        exact .inl ⟨_, rfl, .bar p s hp hs List.mem_cons_self hb⟩
+      | true =>
+        simp only [hb, if_true, applyList]
+        cases hd : declare t p s "|" with
+        | ok t' =>
+          obtain ⟨h1, h2⟩ := declare_ok hd
+          refine .inr ⟨p, s, hp, hs, fun _ _ => hb, ?_, ?_⟩
+          · intro h0 n hn
+            rw [List.mem_singleton.1 hn]; exact h2 h0
+          · subst h1; rfl
+        | error e =>
+          obtain ⟨h0, h1, rfl⟩ := declare_error hd
+          exact .inl ⟨_, rfl, .clash p s "|" hp hs h0 List.mem_cons_self h1⟩
+
+theorem atomsOf_map (ns : List String) : atomsOf (ns.map .atom) = some ns := by
+  induction ns with
+  | nil => rfl
+  | cons n r ih => simp [atomsOf, ih]
+
+theorem atomsOf_some {es : List Arg} {ns : List String} (h : atomsOf es = some ns) :
+    es = ns.map .atom := by
+  induction es generalizing ns with
+  | nil => simp only [atomsOf, Option.some.injEq] at h; subst h; rfl
+  | cons x r ih =>
+    cases x with
+    | atom a =>
+      simp only [atomsOf, Option.map_eq_some_iff] at h
+      obtain ⟨ns', h1, rfl⟩ := h
+      simp [ih h1]
+    | var => simp [atomsOf] at h
+    | int i => simp [atomsOf] at h
+    | other y => simp [atomsOf] at h
+
+theorem finishErr_iso {t : Table} {c : Call} {ns : List String} {e : Err}
+    (hP : c.prio ≠ .var) (hS : c.spec ≠ .var) (hel : ∀ n ∈ ns, Arg.atom n ∈ c.op.elems)
+    (h : FinishErr t c.prio c.spec ns e) : IsoErr t c e := by
+  cases h with
+  | prio e hp =>
+    rcases checkPriority_error hp with ⟨i, h1, h2, rfl⟩ | ⟨h1, rfl⟩
+    · exact .domPrio i h1 h2
+    · exact .typePrio hP h1
+  | spec p e hp hs =>
+    rcases checkSpec_error hs with ⟨x, h1, h2, rfl⟩ | ⟨h1, rfl⟩
+    · exact .domSpec x h1 h2
+    · exact .typeSpec hS h1
+  | bar p s hp hs hm hb => exact .bar p s (hel _ hm) hp hs hb
+  | clash p s n hp hs h0 hm hc => exact .clash n p s (hel _ hm) hp h0 hs hc
+
+/-- the two possible outcomes of a call under the ISO step. -/
+def StepSpec (t : Table) (c : Call) (r : Table × Option Err) : Prop :=
+  (∃ e, r = (t, some e) ∧ IsoErr t c e) ∨
+  (∃ p s ns, Accepted t c p s ns ∧ r = (setAll t p s ns, none))
+
+theorem finishSpec_step {t : Table} {c : Call} {ns : List String} {b : Bool} {r : Table × Option Err}
+    (hP : c.prio ≠ .var) (hS : c.spec ≠ .var) (hn : opNames c.op = some ns)
+    (hel : ∀ n ∈ ns, Arg.atom n ∈ c.op.elems) (hv : ∀ n ∈ ns, validOp n = none)
+    (hb : b = false → "|" ∉ ns) (h : FinishSpec t c.prio c.spec b ns r) : StepSpec t c r := by
+  rcases h with ⟨e, rfl, he⟩ | ⟨p, s, hp, hs, hbar, hnc, rfl⟩
+  · exact .inl ⟨e, rfl, finishErr_iso hP hS hel he⟩
+  · refine .inr ⟨p, s, ns, ⟨hp, hs, hn, hv, ?_, hnc⟩, rfl⟩
+    intro hm
+    cases b with
+    | true => exact hbar rfl hm
+    | false => exact absurd hm (hb rfl)
+
+/-- every call either is rejected with an error whose ISO condition holds, leaving the table as it
+    was, or is accepted and performs exactly the updates of its names. -/
+theorem opStep_spec (t : Table) (c : Call) : StepSpec t c (opStep t c) := by
+  obtain ⟨P, S, O⟩ := c
+  unfold opStep opStepImpl
+  by_cases hP : P = .var
+  · subst hP; exact .inl ⟨_, rfl, .instPrio rfl⟩
+  by_cases hS : S = .var
+  · subst hS; simp only [hP, if_false, if_true]; exact .inl ⟨_, rfl, .instSpec rfl⟩
+  simp only [hP, hS, if_false]
+  cases O with
+  | one a =>
+    cases a with
+    | var => exact .inl ⟨_, rfl, .instOp (by simp [OpArg.elems])⟩
+    | int i => exact .inl ⟨_, rfl, .typeList1 (.int i) rfl (by simp) (by simp)⟩
+    | other x => exact .inl ⟨_, rfl, .typeList1 (.other x) rfl (by simp) (by simp)⟩
+    | atom a =>
+      simp only
+      by_cases hbar : a = "|"
+      · subst hbar
+        simp only [if_true]
+        refine finishSpec_step (c := ⟨P, S, .one (.atom "|")⟩) hP hS rfl ?_ ?_ (by simp)
+          (finishBar_spec t P S)
+        · intro n hn; rw [List.mem_singleton.1 hn]; simp [OpArg.elems]
+        · intro n hn; rw [List.mem_singleton.1 hn]; decide
+      · simp only [hbar, if_false]
+        cases hv : validOp a with
+        | some e =>
+          simp only
+          rcases validOp_some hv with ⟨rfl, rfl⟩ | ⟨rfl, rfl⟩ | ⟨rfl, rfl⟩
+          · exact .inl ⟨_, rfl, .comma (by simp [OpArg.elems])⟩
+          · exact .inl ⟨_, rfl, .curly (by simp [OpArg.elems])⟩
+          · exact .inl ⟨_, rfl, .nil (by simp [OpArg.elems])⟩
+        | none =>
+          simp only
+          refine finishSpec_step (c := ⟨P, S, .one (.atom a)⟩) hP hS rfl ?_ ?_ ?_
+            (finish_one _ t P S a)
+          · intro n hn; rw [List.mem_singleton.1 hn]; simp [OpArg.elems]
+          · intro n hn; rw [List.mem_singleton.1 hn]; exact hv
+          · intro _ hm; exact hbar (List.mem_singleton.1 hm).symm
+  | cons hd tl tail =>
+    simp only
+    cases hl : listCheck (hd :: tl) tail with
+    | error e =>
+      simp only
+      rcases listCheck_error hl with ⟨rfl, h1 | h1⟩ | ⟨x, hx, h1, h2, rfl⟩ | ⟨a, ha, hv⟩
+      · exact .inl ⟨_, rfl, .instOp (by simpa [OpArg.elems] using h1)⟩
+      · subst h1; exact .inl ⟨_, rfl, .instTail hd tl rfl⟩
+      · exact .inl ⟨_, rfl, .typeElem hd tl tail x rfl hx h1 h2⟩
+      · rcases validOp_some hv with ⟨rfl, rfl⟩ | ⟨rfl, rfl⟩ | ⟨rfl, rfl⟩
+        · exact .inl ⟨_, rfl, .comma (by simpa [OpArg.elems] using ha)⟩
+        · exact .inl ⟨_, rfl, .curly (by simpa [OpArg.elems] using ha)⟩
+        · exact .inl ⟨_, rfl, .nil (by simpa [OpArg.elems] using ha)⟩
+    | ok o =>
+      cases o with
+      | none =>
+        simp only
+        obtain ⟨h1, h2⟩ := listCheck_none hl
+        exact .inl ⟨_, rfl, .typeList2 hd tl tail rfl h1 h2⟩
+      | some ns =>
+        simp only
+        obtain ⟨h1, h2, h3⟩ := listCheck_some hl
+        refine finishSpec_step (c := ⟨P, S, .cons hd tl tail⟩) hP hS ?_ ?_ h3 (by simp)
+          (finish_list t P S ns)
+        · simp only [opNames, h1, if_true, h2, atomsOf_map]
+        · intro n hn
+          simp only [OpArg.elems, h2]
+          exact List.mem_map.2 ⟨n, hn, rfl⟩
+
+/-! ### an accepted call meets no ISO error condition -/
+
+theorem opNames_shape {o : OpArg} {ns : List String} (h : opNames o = some ns) :
+    o.elems = ns.map .atom ∧ (∀ hd tl tail, o = .cons hd tl tail → tail = .atom "[]") ∧
+    (∀ x, o = .one x → ∃ a, x = .atom a) := by
+  cases o with
+  | one a =>
+    cases a with
+    | atom a =>
+      simp only [opNames, Option.some.injEq] at h
+      subst h
+      exact ⟨rfl, fun _ _ _ h => OpArg.noConfusion h, fun x hx => ⟨a, by cases hx; rfl⟩⟩
+    | var => simp [opNames] at h
+    | int i => simp [opNames] at h
+    | other y => simp [opNames] at h
+  | cons hd tl tail =>
+    simp only [opNames] at h
+    by_cases ht : tail = .atom "[]"
+    · simp only [ht, if_true] at h
+      refine ⟨atomsOf_some h, ?_, fun x hx => OpArg.noConfusion hx⟩
+      intro hd' tl' tail' heq
+      cases heq; exact ht
+    · simp [ht] at h
+
+theorem accepted_no_isoErr {t : Table} {c : Call} {p : Nat} {s : Spec} {ns : List String}
+    (ha : Accepted t c p s ns) (e : Err) : ¬ IsoErr t c e := by
+  obtain ⟨i, hpi, hi0, hi1, hpe⟩ := checkPriority_ok ha.prio
+  obtain ⟨x, hsx, hxs⟩ := checkSpec_ok ha.spec
+  obtain ⟨hel, htail, hone⟩ := opNames_shape ha.names
+  have hatom : ∀ y, y ∈ c.op.elems → ∃ n, n ∈ ns ∧ y = .atom n := by
+    intro y hy
+    rw [hel] at hy
+    obtain ⟨n, hn, rfl⟩ := List.mem_map.1 hy
+    exact ⟨n, hn, rfl⟩
+  have hname : ∀ n, Arg.atom n ∈ c.op.elems → n ∈ ns := by
+    intro n hn
+    obtain ⟨m, hm, heq⟩ := hatom _ hn
+    cases heq; exact hm
+  intro h
+  cases h with
+  | instPrio h => rw [hpi] at h; cases h
+  | instSpec h => rw [hsx] at h; cases h
+  | instOp h => obtain ⟨n, _, heq⟩ := hatom _ h; cases heq
+  | instTail hd tl h => have := htail _ _ _ h; cases this
+  | typePrio _ h => exact h i hpi
+  | typeSpec _ h => exact h x hsx
+  | typeList1 y h1 _ h3 => obtain ⟨a, rfl⟩ := hone y h1; exact h3 a rfl
+  | typeList2 hd tl tail h1 _ h3 => exact h3 (htail _ _ _ h1)
+  | typeElem hd tl tail y h1 h2 _ h4 =>
+    have : y ∈ c.op.elems := by rw [h1]; exact h2
+    obtain ⟨n, _, rfl⟩ := hatom _ this
+    exact h4 n rfl
+  | domPrio j h1 h2 =>
+    rw [hpi] at h1; cases h1; omega
+  | domSpec a h1 h2 =>
+    rw [hsx] at h1; cases h1; rw [hxs] at h2; cases h2
+  | comma h => have := ha.valid _ (hname _ h); revert this; decide
+  | nil h => have := ha.valid _ (hname _ h); revert this; decide
+  | curly h => have := ha.valid _ (hname _ h); revert this; decide
+  | bar p' s' h1 h2 h3 h4 =>
+    rw [ha.prio] at h2; rw [ha.spec] at h3
+    cases h2; cases h3
+    rw [ha.bar (hname _ h1)] at h4; cases h4
+  | clash n p' s' h1 h2 h3 h4 h5 =>
+    rw [ha.prio] at h2; rw [ha.spec] at h4
+    cases h2; cases h4
+    rw [ha.noClash h3 n (hname _ h1)] at h5; cases h5
+
+/-! ### invariants -/
+
+theorem accepted_protected {t : Table} {c : Call} {p : Nat} {s : Spec} {ns : List String}
+    (ha : Accepted t c p s ns) {n : String} (hn : validOp n ≠ none) (cl : Cls) :
+    lookup (setAll t p s ns) n cl = lookup t n cl := by
+  rw [lookup_setAll, if_neg]
+  rintro ⟨hm, _⟩
+  exact hn (ha.valid n hm)
+
+theorem accepted_inv {t : Table} {c : Call} {p : Nat} {s : Spec} {ns : List String}
+    (ha : Accepted t c p s ns) (hi : Inv t) : Inv (setAll t p s ns) := by
+  have hle := checkPriority_le ha.prio
+  refine ⟨wf_setAll hi.wf p s ns, ?_, ?_, ?_, ?_⟩
+  · -- no infix + postfix
+    intro n
+    rw [lookup_setAll, lookup_setAll]
+    by_cases h0 : p = 0
+    · rcases hi.noInfPost n with h | h
+      · left; split <;> simp [h]
+      · right; split <;> simp [h]
+    · by_cases hn : n ∈ ns
+      · have hc := ha.noClash h0 n hn
+        unfold conflict at hc
+        cases hcls : s.cls with
+        | inf =>
+          right
+          rw [if_neg (by simp)]
+          rw [lookup_none_iff]
+          simpa [hcls] using hc
+        | post =>
+          left
+          rw [if_neg (by simp)]
+          rw [lookup_none_iff]
+          simpa [hcls] using hc
+        | pre =>
+          rw [if_neg (by simp), if_neg (by simp)]
+          exact hi.noInfPost n
+      · rw [if_neg (fun h => hn h.1), if_neg (fun h => hn h.1)]
+        exact hi.noInfPost n
+  · -- range
+    intro n cl p' s' h
+    rw [lookup_setAll] at h
+    by_cases hc : n ∈ ns ∧ cl = s.cls
+    · rw [if_pos hc] at h
+      by_cases h0 : p = 0
+      · simp [h0] at h
+      · simp only [h0, if_false, Option.some.injEq, Prod.mk.injEq] at h
+        obtain ⟨rfl, rfl⟩ := h
+        exact ⟨by omega, hle, hc.2.symm⟩
+    · rw [if_neg hc] at h
+      exact hi.range n cl p' s' h
+  · -- [] and {}
+    intro cl
+    rw [accepted_protected ha (by decide), accepted_protected ha (by decide)]
+    exact hi.nilCurly cl
+  · -- '|'
+    have hb : "|" ∈ ns → s.cls = .inf ∧ (1001 ≤ p ∨ p = 0) := by
+      intro hm
+      have := ha.bar hm
+      simpa [barOk] using this
+    refine ⟨?_, ?_, ?_⟩
+    · rw [lookup_setAll, if_neg]
+      · exact hi.bar.1
+      · rintro ⟨hm, hc⟩; rw [(hb hm).1] at hc; cases hc
+    · rw [lookup_setAll, if_neg]
+      · exact hi.bar.2.1
+      · rintro ⟨hm, hc⟩; rw [(hb hm).1] at hc; cases hc
+    · intro p' s' h
+      rw [lookup_setAll] at h
+      by_cases hc : "|" ∈ ns ∧ Cls.inf = s.cls
+      · rw [if_pos hc] at h
+        by_cases h0 : p = 0
+        · simp [h0] at h
+        · simp only [h0, if_false, Option.some.injEq, Prod.mk.injEq] at h
+          obtain ⟨rfl, rfl⟩ := h
+          rcases (hb hc.1).2 with h1 | h1
+          · exact h1
+          · exact absurd h1 h0
+      · rw [if_neg hc] at h
+        exact hi.bar.2.2 p' s' h
+
+/-! ### `current_op/3` in every instantiation mode -/
+
+theorem mem_currentOpQ {t : Table} (h : wf t) (q : Pat) (x : Nat × Spec × String) :
+    x ∈ currentOpQ true t q ↔ x ∈ currentOp t ∧ q.matches x = true := by
+  obtain ⟨qp, qs, qn⟩ := q
+  simp only [currentOpQ, List.mem_filter]
+  refine and_congr_left fun hm => ?_
+  rw [mem_currentOp]
+  cases qp with
+  | none =>
+    cases qn with
+    | some n =>
+      simp only [List.mem_filterMap, List.mem_cons, List.not_mem_nil, or_false, id]
+      constructor
+      · rintro ⟨e, ⟨o, ho, rfl⟩, hv⟩
+        rcases ho with ho | ho | ho
+        all_goals exact ⟨e, get_some_mem ho.symm, hv⟩
+      · rintro ⟨e, he, hv⟩
+        obtain ⟨h0, rfl⟩ := visible_some.1 hv
+        have hname : n = e.name := by
+          simp only [Pat.matches, Bool.and_eq_true, decide_eq_true_eq] at hm
+          exact hm.2
+        have hg := wf_get_of_mem h he
+        refine ⟨e, ⟨some e, ?_, rfl⟩, hv⟩
+        subst hname
+        cases hc : e.spec.cls with
+        | inf => left; rw [← hc]; exact hg.symm
+        | pre => right; left; rw [← hc]; exact hg.symm
+        | post => right; right; rw [← hc]; exact hg.symm
+    | none =>
+      simp only [List.mem_filterMap, List.mem_filter]
+      constructor
+      · rintro ⟨e, ⟨he, _⟩, hv⟩; exact ⟨e, he, hv⟩
+      · rintro ⟨e, he, hv⟩
+        refine ⟨e, ⟨he, ?_⟩, hv⟩
+        obtain ⟨h0, rfl⟩ := visible_some.1 hv
+        cases qs with
+        | none => rfl
+        | some s' =>
+          have : s' = e.spec := by simpa [Pat.matches] using hm
+          simp [this]
+  | some p' =>
+    cases qs with
+    | none => simp only [if_true, List.mem_filterMap]
+    | some s' =>
+      cases qn with
+      | none => simp only [if_true, List.mem_filterMap]
+      | some n =>
+        simp only
+        constructor
+        · intro hx
+          cases hg : get t n s'.cls with
+          | none => simp [hg] at hx
+          | some e =>
+            simp only [hg, Option.mem_toList] at hx
+            exact ⟨e, get_some_mem hg, hx⟩
+        · rintro ⟨e, he, hv⟩
+          obtain ⟨h0, rfl⟩ := visible_some.1 hv
+          have hmm : s' = e.spec ∧ n = e.name := by
+            have : (p' = e.prio ∧ s' = e.spec) ∧ n = e.name := by simpa [Pat.matches] using hm
+            exact ⟨this.1.2, this.2⟩
+          have hg := wf_get_of_mem h he
+          rw [hmm.1, hmm.2, hg]
+          simpa using hv
+
+/-! ### the code as written versus the ISO step -/
+
+theorem finish_nonlist (fx fx' : Fixes) (t : Table) (P S : Arg) (ns : List String) :
+    finish fx t P S false ns = finish fx' t P S false ns := by
+  unfold finish
+  cases checkPriority P with
+  | error e => rfl
+  | ok p =>
+    cases checkSpec S with
+    | error e => rfl
+    | ok s => simp
+
+/-- the inputs on which `op/3` as written leaves the ISO step: a list whose elements pass
+    `list_of_op_atoms`, valid priority and specifier, and either `'|'` among the elements with a
+    priority/specifier the `'|'` rule forbids, or an element that clashes (infix/postfix). -/
+def Deviates (t : Table) (c : Call) : Prop :=
+  ∃ hd tl tail ns p s, c.op = .cons hd tl tail ∧ listCheck (hd :: tl) tail = .ok (some ns) ∧
+    checkPriority c.prio = .ok p ∧ checkSpec c.spec = .ok s ∧
+    (("|" ∈ ns ∧ barOk p s = false) ∨ (p ≠ 0 ∧ ∃ n ∈ ns, conflict t s n = true))
+
+theorem finish_list_asIs {t : Table} {P S : Arg} {ns : List String}
+    (h : ∀ p s, checkPriority P = .ok p → checkSpec S = .ok s →
+      ("|" ∈ ns → barOk p s = true) ∧ (p ≠ 0 → ∀ n ∈ ns, conflict t s n = false)) :
+    finish asIs t P S true ns = finish ⟨true, true⟩ t P S true ns := by
+  unfold finish asIs
+  cases hp : checkPriority P with
+  | error e => rfl
+  | ok p =>
+    cases hs : checkSpec S with
+    | error e => rfl
+    | ok s =>
+      obtain ⟨h1, h2⟩ := h p s hp hs
+      have hb : (ns.contains "|" && !barOk p s) = false := by
+        cases hc : ns.contains "|" with
+        | false => rfl
+        | true => simp [h1 (List.contains_iff_mem.1 hc)]
+      simp only [Bool.false_and, Bool.false_eq_true, if_false, Bool.true_and, hb]
+      by_cases h0 : p = 0
+      · simp [h0]
+      · have hf : ns.find? (conflict t s) = none := by
+          rw [List.find?_eq_none]
+          intro n hn
+          simp [h2 h0 n hn]
+        simp [h0, hf]
+
+theorem impl_eq_iso_or_deviates (t : Table) (c : Call) :
+    opStepImpl asIs t c = opStep t c ∨ Deviates t c := by
+  by_cases hd : Deviates t c
+  · exact .inr hd
+  left
+  obtain ⟨P, S, O⟩ := c
+  unfold opStep opStepImpl
+  by_cases hP : P = .var
+  · simp [hP]
+  by_cases hS : S = .var
+  · simp [hS]
+  simp only [hP, hS, if_false]
+  cases O with
+  | one a =>
+    cases a with
+    | var => rfl
+    | int i => rfl
+    | other x => rfl
+    | atom a =>
+      simp only
+      by_cases hbar : a = "|"
+      · simp [hbar]
+      · simp only [hbar, if_false]
+        cases validOp a with
+        | some e => rfl
+        | none => exact finish_nonlist _ _ t P S [a]
+  | cons hd' tl tail =>
+    simp only
+    cases hl : listCheck (hd' :: tl) tail with
+    | error e => rfl
+    | ok o =>
+      cases o with
+      | none => rfl
+      | some ns =>
+        simp only
+        apply finish_list_asIs
+        intro p s hp hs
+        constructor
+        · intro hm
+          cases hb : barOk p s with
+          | true => rfl
+          | false => exact absurd ⟨hd', tl, tail, ns, p, s, rfl, hl, hp, hs, .inl ⟨hm, hb⟩⟩ hd
+        · intro h0 n hn
+          cases hc : conflict t s n with
+          | false => rfl
+          | true =>
+            exact absurd ⟨hd', tl, tail, ns, p, s, rfl, hl, hp, hs, .inr ⟨h0, n, hn, hc⟩⟩ hd
+
+/-! ### the default table -/
+
+theorem get_none_of_cls {t : Table} {c : Cls} (h : ∀ e ∈ t, e.spec.cls ≠ c) (n : String) :
+    get t n c = none := by
+  cases hg : get t n c with
+  | none => rfl
+  | some e => exact absurd (get_some_key hg).2 (h e (get_some_mem hg))
+
+theorem get_none_of_name {t : Table} {n : String} (h : ∀ e ∈ t, e.name ≠ n) (c : Cls) :
+    get t n c = none := by
+  cases hg : get t n c with
+  | none => rfl
+  | some e => exact absurd (get_some_key hg).1 (h e (get_some_mem hg))
+
+theorem lookup_none_of_get {t : Table} {n : String} {c : Cls} (h : get t n c = none) :
+    lookup t n c = none := by
+  rw [lookup_def, h]; rfl
+
+def wfDec : (t : Table) → Decidable (wf t)
+  | [] => isTrue trivial
+  | e :: r =>
+    match wfDec r with
+    | isTrue h =>
+      if hg : get r e.name e.spec.cls = none then isTrue ⟨hg, h⟩ else isFalse fun h' => hg h'.1
+    | isFalse h => isFalse fun h' => h h'.2
+
+instance (t : Table) : Decidable (wf t) := wfDec t
+
+theorem default_wf : wf defaultTable := by decide
+
+theorem default_inv : Inv defaultTable := by
+  have hpost : ∀ e ∈ defaultTable, e.spec.cls ≠ .post := by decide
+  have hrange : ∀ e ∈ defaultTable, 1 ≤ e.prio ∧ e.prio ≤ 1200 := by decide
+  have hnil : ∀ e ∈ defaultTable, e.name ≠ "[]" := by decide
+  have hcurly : ∀ e ∈ defaultTable, e.name ≠ "{}" := by decide
+  have hbar : ∀ e ∈ defaultTable, e.name ≠ "|" := by decide
+  refine ⟨default_wf, ?_, ?_, ?_, ?_⟩
+  · intro n; right; exact lookup_none_of_get (get_none_of_cls hpost n)
+  · intro n c p s h
+    rw [lookup_def] at h
+    cases hg : get defaultTable n c with
+    | none => simp [hg] at h
+    | some e =>
+      simp only [hg, Option.bind_some] at h
+      by_cases h0 : e.prio = 0
+      · simp [h0] at h
+      · simp only [h0, if_false, Option.some.injEq, Prod.mk.injEq] at h
+        obtain ⟨rfl, rfl⟩ := h
+        have := hrange e (get_some_mem hg)
+        exact ⟨this.1, this.2, (get_some_key hg).2⟩
+  · intro c
+    exact ⟨lookup_none_of_get (get_none_of_name hnil c), lookup_none_of_get (get_none_of_name hcurly c)⟩
+  · refine ⟨lookup_none_of_get (get_none_of_name hbar _), lookup_none_of_get (get_none_of_name hbar _), ?_⟩
+    intro p s h
+    rw [lookup_none_of_get (get_none_of_name hbar _)] at h
+    cases h
+
 end Scryer.OpTable
